@@ -277,7 +277,9 @@ func (s *Sim) grantFor(cidx int, c *Client, rid, name, query, what string, seq u
 			if c == nil && !(t.Kind == "reaccess" && t.Name == name) {
 				continue
 			}
-			if g.DlvCut < t.DlvCut && t.DlvCut < cut {
+			// (an event or reset waits in the resource's work queue while a query
+			// event is being handled: it takes effect when that is over)
+			if g.DlvCut < t.DlvCut && s.effectiveCut(name, t.DlvCut) <= cut {
 				// once a re-check has been deferred it stays deferred until the
 				// subscription stops queueing: report the deferred one if there is one
 				if bad == nil || (c != nil && s.deferredWindow(c, rid, t)) {
@@ -899,6 +901,10 @@ func buildAccessProfile(s *Sim, r *rand.Rand, p *ProfileParams, arm func(string,
 	// {cid} tagged resources
 	if r.IntN(2) == 0 {
 		p.RIDs = append(p.RIDs, "ex.user.{cid}")
+	}
+	// ... and a {cid} tag in the query part
+	if r.IntN(2) == 0 && len(w.Names) > 0 {
+		p.RIDs = append(p.RIDs, w.Names[r.IntN(len(w.Names))]+"?owner={cid}")
 	}
 }
 
